@@ -61,7 +61,8 @@ class ModelSpec:
         self.eval_cells = list(eval_cells) if eval_cells else list(cells)
 
     def initial_inputs(self):
-        return {a: self.cells[a] for a in self.inputs}
+        # an input that is not a cell of the model yet starts as None
+        return {a: self.cells.get(a) for a in self.inputs}
 
     def reference(self, inputs):
         """address -> python value of every cell for the given inputs."""
@@ -82,7 +83,7 @@ class ModelSpec:
 
     def current_cells(self, inputs):
         d = dict(self.cells)
-        d.update(inputs)
+        d.update({a: v for a, v in inputs.items() if v is not None})
         return d
 
 
@@ -98,9 +99,10 @@ def chain():
     return ModelSpec(
         'chain',
         {A: 2, B: '=A1+1', C: '=B1*2', D: '=C1-A1+E9'},   # E9 does not exist
-        [A], [0, 5],
+        # ... until a history sets it
+        [A, S + 'E9'], [0, 5],
         {B: lambda g: g(A) + 1, C: lambda g: g(B) * 2,
-         D: lambda g: g(C) - g(A)})
+         D: lambda g: g(C) - g(A) + (g(S + 'E9') or 0)})
 
 
 def diamond():
